@@ -45,7 +45,8 @@ def string_to_float(series: pd.Series, state: dict) -> pd.Series:
     # attempt the replacement
     # if any("," in x for x in series):
     #     series = series.str.replace(",", "")
-    return series.astype(float)
+    # the guard ignores missing values; astype(float) only understands None and NaN
+    return series.mask(series.isna(), np.nan).astype(float)
 
 
 @Float.register_relationship(Complex, pd.Series)
